@@ -28,7 +28,12 @@ allInstances with / without resources= on the class handle and on its EClass,
 eResource, eContents, eAllContents, eRoot, eContainer, answered as object
 indices; `rerender` -- the description rendered again (same or revised) INTO
 THE SAME module / rebuilt: documents saved before and after must load through
-the module / package into the CURRENT classes on every rendering."""
+the module / package into the CURRENT classes on every rendering;
+`nonmembers` -- things that carry an eClass without being instances (class
+handle, Python class, EClass, namesake instance, resolved / unresolved proxy)
+as reference values and isinstance arguments; `breadth` -- same operation names
+in several classes, dynamic metamodel built operations-first / parameters
+afterwards: inspect.signature and calls (both replayed by scenario_replay)."""
 import copy
 import os
 import tempfile
@@ -328,19 +333,19 @@ def behave_case(ctx, out, st, scenario, D, history, driver=None):
         return
     render, j, a, b = d
     cut = history
-    if j is not None and driver is None:
+    if j is not None and driver in (None, sd.BreadthBehaviour):
         # the steps on the same instance up to the differing one are enough when they still differ
         small = [h for h in history[:j + 1] if h[1] == history[j][1]]
-        d2 = behave_first_difference(behave_traces(D, small))
+        d2 = behave_first_difference(behave_traces(D, small, driver))
         cut = small if d2 is not None and d2[1] == len(small) - 1 else history[:j + 1]
     elif j is not None:
         # a population: the objects and links made so far, then the differing query alone
-        small = [h for h in history[:j] if h[0] in ('make', 'contain', 'uncontain', 'rappend', 'rremove')] + [history[j]]
+        small = [h for h in history[:j] if h[0] in ('make', 'offer', 'contain', 'uncontain', 'rappend', 'rremove')] + [history[j]]
         d2 = behave_first_difference(behave_traces(D, small, driver))
         cut = small if d2 is not None and d2[1] == len(small) - 1 else history[:j + 1]
     step = history[j] if j is not None else ['construct']
-    who = '-' if j is None else (D['classes'][step[1]]['name'] if driver is None or step[0] in ('make', 'all', 'eall')
-                                 else f'object {step[1]}')
+    who = '-' if j is None else (D['classes'][step[1]]['name'] if driver in (None, sd.BreadthBehaviour) or step[0] in ('make', 'all', 'eall')
+                                 else f'{step[1]}')
     out.fail({'property': PID, 'clause': 'behaviour', 'scenario': scenario, 'culprit': step[0], 'render': render},
              f'{scenario}: step {step} on {who}: '
              f'dynamic {str(a)[:160]} vs {render} {str(b)[:160]}',
@@ -395,6 +400,27 @@ def rerender_scenarios(ctx, out, model=None, st=None):
                       'render': render},
                      f'rerender: dynamic {str(a)[:160]} vs {render} {str(b)[:160]}',
                      {'scenario': 'rerender', 'seed': ctx.seed, 'tier': ctx.tier, 'behave': D1, 'revised': D2, 'history': []})
+
+
+def offers_scenarios(ctx, out, model=None, st=None):
+    """values that carry an eClass without being instances (the class handle, the Python class, the EClass, an
+    instance of a namesake class, proxies resolved and unresolved) offered as reference values and asked to
+    isinstance, on every rendering"""
+    st = st if st is not None else new_sdstats()
+    rng = common.rng_for(ctx.seed, 'C13:nonmembers')
+    for _ in range(20 if ctx.tier != 'thorough' else 150):
+        D = sd.gen_population_descr(rng)
+        behave_case(ctx, out, st, 'nonmembers', D, sd.offers_history(D, rng), sd.Offers)
+
+
+def breadth_scenarios(ctx, out, model=None, st=None):
+    """operations of the same names in several classes; the dynamic metamodel is built breadth-first (operations
+    first, parameters described afterwards): inspect.signature and call outcomes against the static renderings"""
+    st = st if st is not None else new_sdstats()
+    rng = common.rng_for(ctx.seed, 'C13:breadth')
+    for _ in range(25 if ctx.tier != 'thorough' else 200):
+        D = sd.gen_breadth_descr(rng)
+        behave_case(ctx, out, st, 'breadth', D, sd.behave_history(D, rng, xload=False), sd.BreadthBehaviour)
 
 
 def keyword_scenarios(ctx, out, model=None, st=None):
@@ -558,6 +584,8 @@ def run(ctx, out):
     clash_scenarios(ctx, out, model, sdstats)
     keyword_scenarios(ctx, out, model, sdstats)
     rerender_scenarios(ctx, out, model, sdstats)
+    offers_scenarios(ctx, out, model, sdstats)
+    breadth_scenarios(ctx, out, model, sdstats)
     staticdecl_bodies(ctx, out, model, sdstats, 150 if not thorough else 3000)
     model.close()
     out.coverage.update({'staticdecl_' + k: v for k, v in sdstats.items()})
@@ -576,6 +604,8 @@ def run(ctx, out):
 
 def replay(ctx, rep):
     case = rep['case']
+    if case.get('scenario') in ('nonmembers', 'breadth'):
+        return common.scenario_replay(ctx, rep, {'nonmembers': offers_scenarios, 'breadth': breadth_scenarios})
     if case.get('scenario') == 'rerender':
         d = rerender_difference(case['behave'], case['revised'])
         print('REPRODUCED ' + str(d)[:400] if d is not None else 'not reproduced')
